@@ -60,6 +60,10 @@ def _node_is_virtual(node) -> bool:
     return isinstance(node, h5py.Group) and SUBST_KEY not in node.attrs
 
 
+class _PathInsideValueError(ValueError):
+    """Raised when a path leads through a dataset (there can be nothing below a value)."""
+
+
 @dataclass(frozen=True)
 class IH5Node:
     """An overlay node wraps a group, dataset or attribute manager.
@@ -323,7 +327,9 @@ class IH5InnerNode(IH5Node):
             ret.append(curr)
             # catch invalid access, e.g. /foo is record, user accesses /foo/bar:
             if not is_last_seg and isinstance(curr, IH5Dataset):
-                raise ValueError(f"Cannot access path inside a value: {curr._gpath}")
+                raise _PathInsideValueError(
+                    f"Cannot access path inside a value: {curr._gpath}"
+                )
         # return path index sequence
         return ret
 
@@ -347,6 +353,8 @@ class IH5InnerNode(IH5Node):
     def get(self, key: str, default=None):
         try:
             return self[key]
+        except _PathInsideValueError:
+            return default  # path leads through a dataset -> no such object (like h5py)
         except KeyError as e:
             if str(e).find("not open") < 0:
                 return default
@@ -369,7 +377,10 @@ class IH5InnerNode(IH5Node):
 
     def __contains__(self, key: str):
         self._guard_key(key)
-        return self._find(key) is not None
+        try:
+            return self._find(key) is not None
+        except _PathInsideValueError:
+            return False  # path leads through a dataset -> no such object (like h5py)
 
     def __iter__(self):
         return iter(self._children().keys())
